@@ -296,6 +296,26 @@ fn alphabet() -> Vec<Stmt> {
         },
         Stmt { src: "do { return inputs = 5 }", targets: &[], inner: &[], model: |_m| Exp::Any },
         Stmt { src: "do {\n  // only a comment\n  return sum = 3\n}", targets: &[], inner: &[], model: |_m| Exp::Any },
+        // a statement whose value expression binds the statement's own target: the name cannot be bound
+        // twice, so the statement fails (the inner binding, made first, stays)
+        Stmt {
+            src: "a = (a = 2) + 1",
+            targets: &["a"],
+            inner: &[],
+            model: |m| {
+                bind(m, "a", MV::Int(2));
+                Exp::Fail
+            },
+        },
+        Stmt {
+            src: "output b = [b = 4, b]",
+            targets: &["b"],
+            inner: &[],
+            model: |m| {
+                bind(m, "b", MV::Int(4));
+                Exp::Fail
+            },
+        },
         Stmt { src: "a = nope", targets: &["a"], inner: &[], model: |_m| Exp::Fail },
         Stmt {
             src: "b = (a = 1) + nope",
@@ -584,7 +604,7 @@ pub fn run(ctx: &Ctx, replay: Option<&J>) -> i32 {
     ctx.set("fixpoint_reached", json!(ctx.caps.lock().unwrap().is_empty()));
     ctx.set(
         "trusted_base",
-        json!(["reference model of the 47-statement alphabet in mc/src/c03.rs", "canonical state key (sorted bindings + outputs)"]),
+        json!(["reference model of the 49-statement alphabet in mc/src/c03.rs", "canonical state key (sorted bindings + outputs)"]),
     );
     ctx.assume("names and values outside the statement alphabet are not explored");
     // vacuity guards
